@@ -141,6 +141,11 @@ theorem gen_q2d_accumulation (c s Sa Sb um k : K) :
 theorem gen_structure :
     packMaxOverKeysHasDefaultZero = true ∧ sumOfModesContractsAxisZeroWithWeights = true ∧
     lstsqDropsExactlyNonFiniteSamplesFromDataAndModes = true := by decide
+
+/-- every argument documented as an iterable (coefficients, orders, modes) is either turned into a sequence before anything else
+reads it, or is read exactly once front to back: a generator / iterator / zip object is never traversed twice, measured or indexed
+(Boolean computed by the translator from the syntax trees; opaque to Lean) -/
+theorem gen_iterable_arguments : iterableArgumentsAreReadOnceOrMaterialisedFirst = true := by decide
 end Gen
 
 section GenField
